@@ -38,6 +38,9 @@ type RespScript struct {
 	Status  int    `json:"status"`
 	Reason  string `json:"reason,omitempty"`
 	Interim bool   `json:"interim103,omitempty"` // send "103 Early Hints" first
+	// InterimCode: with Interim, the status of the interim response (0 = 103): 100 Continue,
+	// 102 Processing, 103 Early Hints
+	InterimCode int `json:"interim_code,omitempty"`
 	Header  []KV   `json:"header,omitempty"`     // end-to-end field lines, in order
 	// Echo: names of request fields whose received values the backend copies into its response (one
 	// field line per received value), as services that echo a correlation ID do.
@@ -57,6 +60,9 @@ type RespScript struct {
 	Fault string `json:"fault,omitempty"`
 	// HoldBeforeResponse parks the request inside the backend until Release is called.
 	Hold bool `json:"hold,omitempty"`
+	// Continue100 (opt-in, C03): a request carrying "Expect: 100-continue" is answered with the interim
+	// "100 Continue" before the backend reads the request body, as ordinary origin servers do.
+	Continue100 bool `json:"continue100,omitempty"`
 }
 
 // SeenRequest is what a raw backend recorded for one request.
@@ -258,6 +264,9 @@ func (b *RawBackend) handle(c net.Conn, br *bufio.Reader, req *http.Request) (ke
 	if ex != nil {
 		close(ex.arrived)
 	}
+	if script != nil && script.Continue100 && strings.EqualFold(strings.TrimSpace(req.Header.Get("Expect")), "100-continue") {
+		_, _ = c.Write([]byte("HTTP/1.1 100 Continue\r\n\r\n"))
+	}
 	// read the request body completely (the proxy streams it)
 	body, err := io.ReadAll(req.Body)
 	seen.Body = body
@@ -298,7 +307,14 @@ func (b *RawBackend) play(c net.Conn, req *http.Request, s *RespScript, ex *exch
 		return false
 	}
 	if s.Interim {
-		_, _ = w.WriteString("HTTP/1.1 103 Early Hints\r\nLink: </style.css>; rel=preload\r\n\r\n")
+		switch s.InterimCode {
+		case 100:
+			_, _ = w.WriteString("HTTP/1.1 100 Continue\r\n\r\n")
+		case 102:
+			_, _ = w.WriteString("HTTP/1.1 102 Processing\r\n\r\n")
+		default:
+			_, _ = w.WriteString("HTTP/1.1 103 Early Hints\r\nLink: </style.css>; rel=preload\r\n\r\n")
+		}
 		_ = w.Flush()
 	}
 	reason := s.Reason
